@@ -242,8 +242,10 @@ def main(argv=None):
         edir = os.path.join(VERIF, ".scratch", "evidence-of-other-trees") if other_tree else os.path.join(VERIF, "evidence")
         os.makedirs(edir, exist_ok=True)
         epath = os.path.join(edir, f"{prop}.json")
-        with open(epath, "w") as f:
+        tmp = f"{epath}.{os.getpid()}.tmp"          # written aside and moved into place: two runs never interleave in one file
+        with open(tmp, "w") as f:
             json.dump(evidence, f, indent=1)
+        os.replace(tmp, epath)
         try:
             import jsonschema
             with open(os.path.join(VERIF, "vframework", "schemas", "EVIDENCE.schema.json")) as f:
